@@ -45,6 +45,7 @@ func main() {
 	}
 	L = wire.LoadLayout(os.Args[2])
 	wire.RegisterPrivate()
+	prime()
 	switch os.Args[1] {
 	case "replay":
 		replay(os.Args[3])
@@ -106,6 +107,69 @@ func replay(path string) {
 	}
 	sum.Note("registry_types", len(dns.TypeToRR)-1) // minus the private type registered by the harness
 	sum.Print()
+}
+
+// ---------------------------------------------------------------- a decoder with a past
+//
+// "Unpacking those octets yields a message equal to the original" holds for any receiver and whatever was decoded
+// before.  primeBytes is a hand-assembled rich message (question, records in all sections incl. a private-type and an
+// unknown-type record, OPT with an option).  It is decoded once at start-up and the result is HELD: nothing decoded later
+// may change it (primeCanon).  Every case is also decoded into a receiver that decoded primeBytes just before.
+// State that leaks between decodings therefore shows in a fresh process, for one case at a time.
+var (
+	primeBytes []byte
+	primeHeld  *dns.Msg
+	primeCanon string
+)
+
+func wname(labels ...string) []byte {
+	var b []byte
+	for _, l := range labels {
+		b = append(append(b, byte(len(l))), l...)
+	}
+	return append(b, 0)
+}
+
+func wrr(owner []byte, t, class int, ttl uint32, rdata []byte) []byte {
+	b := append([]byte{}, owner...)
+	b = append(b, byte(t>>8), byte(t), byte(class>>8), byte(class), byte(ttl>>24), byte(ttl>>16), byte(ttl>>8), byte(ttl), byte(len(rdata)>>8), byte(len(rdata)))
+	return append(b, rdata...)
+}
+
+func prime() {
+	b := []byte{0xbe, 0xef, 0x85, 0x80, 0, 1, 0, 3, 0, 1, 0, 2}
+	b = append(append(b, wname("stale", "example")...), 0, 1, 0, 1)
+	b = append(b, wrr(wname("stale", "example"), wire.PrivType, 1, 300, []byte("STALE-PRIVATE"))...)
+	b = append(b, wrr(wname("stale", "example"), 65281, 1, 300, []byte("STALE-UNKNOWN"))...)
+	b = append(b, wrr(wname("stale", "example"), 16, 1, 300, append([]byte{5}, "stale"...))...)
+	b = append(b, wrr(wname("example"), 2, 1, 300, wname("ns", "stale", "example"))...)
+	b = append(b, wrr(wname("ns", "stale", "example"), 1, 1, 300, []byte{192, 0, 2, 99})...)
+	b = append(b, wrr(wname(), 41, 1232, 0x8000, []byte{0, 3, 0, 5, 'S', 'T', 'A', 'L', 'E'})...)
+	m := new(dns.Msg)
+	if err := m.Unpack(b); err != nil {
+		wire.Stderr("harness: the priming message does not unpack (%v): decoding is checked without a past", err)
+		return
+	}
+	p, _ := L.ProjectMsg(m, nil)
+	primeBytes, primeHeld, primeCanon = b, m, wire.Canon(p)
+}
+
+// heldIntact: the message decoded at start-up still reads as it did then
+func heldIntact() bool {
+	if primeHeld == nil {
+		return true
+	}
+	p, _ := L.ProjectMsg(primeHeld, nil)
+	return wire.Canon(p) == primeCanon
+}
+
+// usedReceiver: a receiver that has just decoded the rich priming message
+func usedReceiver() *dns.Msg {
+	m := new(dns.Msg)
+	if primeBytes != nil {
+		_ = m.Unpack(primeBytes)
+	}
+	return m
 }
 
 func filled(n int, fill byte) []byte {
@@ -242,6 +306,20 @@ func one(v *vec, sum *hx.Summary) {
 		}
 	}
 
+	// 1a. an empty list may be spelled as an empty or as a nil slice: the same octets
+	if inex == "" && len(exp) < 8192 {
+		L.NilLists = true
+		mn, _ := L.BuildMsg(&v.Msg)
+		L.NilLists = false
+		if got, err := mn.Pack(); err != nil {
+			if !v.Refuse {
+				mis("wire/pack-error:"+key, fmt.Sprintf("Pack() with empty lists as nil slices: %v", err))
+			}
+		} else if !bytes.Equal(got, exp) {
+			mis("wire/pack-octets:"+keyAt(v, got, exp), fmt.Sprintf("Pack() with empty lists as nil slices = %.300x, spec %.300x", got, exp))
+		}
+	}
+
 	// 1b. the same into a caller's buffer that is large enough to be used in place and is NOT zeroed
 	// (a reused buffer): whatever the buffer held before must not leak into the message
 	if packed {
@@ -266,6 +344,22 @@ func one(v *vec, sum *hx.Summary) {
 	proj, _ := L.ProjectMsg(u, want)
 	if k, what := diffMsg(proj, want, inex != ""); k != "" {
 		mis("wire/unpack-fields:"+k, "Unpack(spec octets): "+what)
+	}
+
+	// 2b. the same into a receiver that decoded another, rich message before; and what was decoded earlier stays as it was
+	u2 := usedReceiver()
+	if err := u2.Unpack(exp); err != nil {
+		mis("wire/unpack-reused-error:"+key, fmt.Sprintf("Unpack(spec octets) into a Msg used before: %v", err))
+	} else {
+		proj2, _ := L.ProjectMsg(u2, want)
+		if k, what := diffMsg(proj2, want, inex != ""); k != "" && wire.Canon(proj2) != wire.Canon(proj) {
+			mis("wire/unpack-reused-fields:"+k, "Unpack(spec octets) into a Msg that decoded another message before: "+what)
+		}
+	}
+	if !heldIntact() {
+		mis("wire/unpack-aliasing:"+key, "a message decoded earlier (and still held) changed when this one was decoded")
+		primeHeld = nil
+		prime() // restore, so that the next case is judged on its own
 	}
 
 	// 3. conversely: packing what was unpacked reproduces the octets
@@ -347,6 +441,10 @@ type event struct {
 	PbufOK   bool `json:"pbufok"`
 	PbufSame bool `json:"pbufsame"`
 	RRSame   bool `json:"rrsame"`
+	// decoding into a receiver that decoded a rich message before gives the same projection (msg2);
+	// the message decoded at start-up and held since is unchanged
+	ReusedSame bool `json:"reusedsame"`
+	HeldSame   bool `json:"heldsame"`
 }
 
 func emptyMsg() *wire.Msg { return &wire.Msg{Q: []wire.Q{}, An: []wire.RR{}, Ns: []wire.RR{}, Ar: []wire.RR{}} }
@@ -387,6 +485,16 @@ func observe(a *wire.Msg, sum *hx.Summary) event {
 		}
 		e.Unpacked = true
 		e.Msg2, _ = L.ProjectMsg(u, a)
+		u2 := usedReceiver()
+		if u2.Unpack(b) == nil {
+			p2, _ := L.ProjectMsg(u2, a)
+			e.ReusedSame = wire.Canon(p2) == wire.Canon(e.Msg2)
+		}
+		e.HeldSame = heldIntact()
+		if !e.HeldSame {
+			primeHeld = nil
+			prime()
+		}
 		if rb, err := u.Pack(); err == nil {
 			e.Repacked, e.Rebytes = true, hx.FromBytes(rb)
 		}
